@@ -27,7 +27,7 @@ from ..common import Result, Violation, f2h, h2f
 from . import c20
 
 META = dict(
-    level='Lean theorems over the EP model of tsdate/variational.py with arbitrary projections: ranges of _rescale and _damp under their own asserts; invariant "every stored node posterior is (0,0) or proper with 1/max_shape <= shape <= max_shape" over all inputs / iteration counts / options for every run the real code completes without AssertionError; proper moments reported for proper posteriors; approximate_gamma_mom proper; phase flip in [1/2,1]; IQR reprojection capped. PARTIAL by nature: it is not proved that every non-sample node receives a non-skipped update (a node whose every update is skipped keeps the improper (0,0)), nor that the asserts never fire over whole runs (only locally for valid-or-skip projections); "finite" means "defined" (overflow not modelled). Model tied to the numba code bit-for-bit.',
+    level='Lean theorems over the EP model of tsdate/variational.py: ranges of _rescale and _damp under their own asserts (also stated for the kernels regenerated from the source); invariant "every stored node posterior is (0,0) or proper with 1/max_shape <= shape <= max_shape" over all inputs / iteration counts / options, for ANY projections, for every run completed without AssertionError; for valid-or-skip projections - in particular the projection kernels regenerated from the current approx.py - and regularise=false the asserts provably never fire, so the invariant is unconditional there; proper moments reported for proper posteriors; approximate_gamma_mom proper; phase flip in [1/2,1]; IQR reprojection capped. PARTIAL by nature: not proved that every non-sample node receives a non-skipped update (a node whose every update is skipped keeps the improper (0,0); shown possible for the model with an always-skipping projection); with root regularisation the invariant stays conditional on no AssertionError in propagate_prior; "finite" means "defined" (overflow not modelled). Model tied to the numba code bit-for-bit.',
     note='Lean kernel + {propext, Classical.choice, Quot.sound}; sampled bit-exact correspondence (kernels and whole runs); projections and gammainc_inv are parameters; exact arithmetic',
     technique='loop invariant guarded by the code\'s own asserts + range lemmas for _damp/_rescale + bit-exact replay; oracle search for never-updated nodes',
     ref='§3 C05',
